@@ -24,7 +24,7 @@ RULE = ('Each run parses one generated document (twins-rich, lists, math, nested
 STUBS = []
 PROBES = ['edit-second-twin', 'edit-in-inserted-material', 'stale-handle-used', 'stale-after-twin-deleted',
           'handle-detached', 'insert-at-0', 'insert-at-len', 'insert-in-between', 'target-in-arg-of-arg',
-          'target-in-item', 'target-in-math', 'target-text-leaf', 'rejected-append', 'rejected-insert',
+          'target-in-item', 'target-in-math', 'target-text-leaf', 'rejected-append', 'rejected-insert', 'rejected-set-string',
           'twin-created-by-insert']
 ASSUMPTIONS = ['new material is always fresh (a node parsed elsewhere and copied, or a plain string); the same '
                'expression object is never inserted at two places',
@@ -34,7 +34,7 @@ ASSUMPTIONS = ['new material is always fresh (a node parsed elsewhere and copied
 KINDS = ('text', 'esc', 'linebreak', 'comment', 'cmd', 'env', 'list', 'group', 'math', 'mathenv', 'cmd', 'env')
 OPS = ('delete', 'replace_with', 'parent_replace', 'parent_remove', 'insert', 'append', 'rename', 'set_string',
        'group_string', 'args_append', 'args_insert', 'args_remove', 'args_pop', 'args_reverse', 'args_clear',
-       'args_extend', 'args_slice', 'acquire', 'rej_append', 'rej_insert')
+       'args_extend', 'args_slice', 'args_selfassign', 'acquire', 'rej_append', 'rej_insert')
 NAMES = ['foo', 'bar', 'x', 'qq', 'e', 'env', 'quote', 'zz', 'new']
 STRINGS = ['S', 'hello', ' new text ', 'x', 'a b', '12', 'Soup']
 # (snippet, how to take the node out of the freshly parsed donor)
@@ -68,7 +68,22 @@ def gen(st, index, job):
         g = docgen.Gen(r, KINDS, size, r.randrange(2, 5), ws=('normal', 'lines', 'tight')[r.randrange(3)],
                        names=['x', 'foo', 'bar'] if prof < 7 else None)
         g.body(0, size)
-        doc = docgen.Doc(g.toks, 'c15').text
+        toks = [t.text for t in g.toks]
+        if r.random() < 0.4 and g.toks:
+            # twin-rich: duplicate one complete construct right behind itself (with or
+            # without text in between), wherever it sits - body, argument group, item, math
+            units = {}
+            for i, t in enumerate(g.toks):
+                for u in t.path:
+                    units.setdefault(u, []).append(i)
+            cands = [v for v in units.values() if 1 <= len(v) <= 10 and v == list(range(v[0], v[-1] + 1))
+                     and g.toks[v[0]].tag in ('cmd', 'begin', 'open', 'math') and g.toks[v[0]].region in ('', 'math', 'list')]
+            if cands:
+                v = cands[r.randrange(len(cands))]
+                span = toks[v[0]:v[-1] + 1]
+                sep = [('', ' t ', ' ')[r.randrange(3)]]
+                toks = toks[:v[-1] + 1] + sep + span + toks[v[-1] + 1:]
+        doc = ''.join(toks)
     ro = st['ops']
     nops = (1, 1, 2, 2, 3, 3, 4, 5, 6, 8, 10, 14, 20, 30)[ro.randrange(14)]
     enabled = [o for o in OPS if ro.random() < 0.6] or ['delete', 'insert']
@@ -138,6 +153,7 @@ class Sim:
         if s[1:-1]:
             m.body = [M('text', text=s[1:-1])]
             m.adopt()
+        m.argflag = True
         if a % 2:
             return s, m
         cls = BraceGroup if s[0] == '{' else BracketGroup
@@ -253,7 +269,11 @@ class Sim:
         expect = None        # expected exception type name for rejected forms
         effect = None        # callable applying the edit to the model
         call = None          # callable applying the edit to the real tree
-        any_exc_ok = not att or not in_par
+        # only operations that work through the parent can meet a node that is no
+        # longer in its parent (raising is allowed then, the document must not
+        # change); operations on the node itself work on a detached node as well
+        linked = in_par and m.parent is not None and (not m.parent.is_arg() or m.parent.in_parent())
+        any_exc_ok = (not linked) and op in ('delete', 'replace_with', 'parent_replace', 'parent_remove')
 
         def mat():
             ms = self.material(c, d)
@@ -350,7 +370,20 @@ class Sim:
                 h.name = new
         elif op == 'set_string':
             s = STRINGS[c % len(STRINGS)]
-            if m.kind == 'cmd' and len(m.args) == 1 and m.args[0].kind == 'group' and m.name != 'item':
+            flat = m.flat_contents()
+            if m.kind == 'cmd' and len(m.args) != 1 and not m.is_arg():
+                # documented: .string is only valid for commands with one argument
+                # (\item included: its body is not its string)
+                desc = ('set_string-rejected', m.ser()[:40], s, src)
+                expect = 'AssertionError'
+                count('probe.rejected-set-string')
+                effect = lambda: None  # noqa: E731
+            elif m.kind in ('env', 'math') and not m.is_arg() and not (len(flat) == 1 and flat[0].kind == 'text'):
+                desc = ('set_string-rejected', m.ser()[:40], s, src)
+                expect = 'AssertionError'
+                count('probe.rejected-set-string')
+                effect = lambda: None  # noqa: E731
+            elif m.kind == 'cmd' and len(m.args) == 1 and m.args[0].kind == 'group':
                 desc = ('set_string', m.ser()[:40], s, src)
 
                 def effect():
@@ -445,6 +478,13 @@ class Sim:
                 desc = ('args.clear', m.ser()[:40], src)
                 effect = lambda: m.args.clear()  # noqa: E731
                 call = lambda: h.args.clear()  # noqa: E731
+            elif sub == 'selfassign':
+                # `a = node.args; ...; node.args = a`: assigning a node its own list
+                desc = ('args=args', m.ser()[:40], src)
+                effect = lambda: None  # noqa: E731
+
+                def call():
+                    h.args = h.args
             elif sub == 'slice':
                 lo = (b % (2 * n + 3)) - (n + 1)
                 hi = (c % (2 * n + 3)) - (n + 1)
@@ -479,8 +519,7 @@ class Sim:
                                 '%r: expected %s, got %s' % (desc, expect, exc))
         elif any_exc_ok:
             # a handle on a detached node: raising is allowed, the document must not change
-            if exc is None and in_par:
-                effect()
+            pass    # not reachable through its parent any more: nothing may change
         else:
             if exc is not None:
                 raise Violation('edit-raised:%s' % exc, '%r on an attached target raised %s: %s' % (desc, exc, emsg))
